@@ -433,11 +433,11 @@ def main(argv):
             # ... and "contiguous increasing heights under restarts": after a restart on the same stores the real state
             # machine resumes in the height / round the stores prescribe (c10_sm_resume: never re-enters a height whose
             # finalization is stored), on model-walked histories with Stop/Start events and on the scripted ones
-            clauses_sm = ["c08_finalize", "c10_sm_resume"]
+            clauses_sm = ["c08_finalize", "c10_sm_resume", "c07_sm_considered_match"]
             n_sm, steps_sm = (24, 40) if c.tier == "quick" else (200, 60)
-            S.walked(c, "C03", binary_sm, "c03sm", n_sm, steps_sm, clauses_sm, lambda name, evs, fl: name)
+            S.walked(c, "C03", binary_sm, "c03sm", n_sm, steps_sm, clauses_sm, lambda name, evs, fl: None if S.catchup_valsets_empty(name, evs, fl) else name)
             wk = {k: c.coverage[k] for k in ("evaluations", "traces", "event_distribution") if k in c.coverage}
-            S.run_scenarios(c, binary_sm, "c03sm", clauses_sm, lambda name, evs, fl: name)
+            S.run_scenarios(c, binary_sm, "c03sm", clauses_sm, lambda name, evs, fl: None if S.catchup_valsets_empty(name, evs, fl) else name)
             sc = c.coverage.get("scripted_histories")
             c.coverage.update(keep)
             c.coverage["state_machine_scripted_histories"] = sc
